@@ -527,9 +527,7 @@ func replayC01(c *core.Ctx) int {
 			if l.Out == nil {
 				l.Out = [][]pipeKey{}
 			}
-			if l.Msg.Shares == nil {
-				l.Msg.Shares = []pipeItem{}
-			}
+			l.Msg.normalise()
 			jb, _ := json.Marshal(l)
 			buf.Write(jb)
 			buf.WriteByte('\n')
